@@ -69,6 +69,18 @@ def check_guard(mod, fn, guards, targets, fail="raise", sources=None, extra_pass
         raise AnalysisError("no protected target found in %s" % fn.name)
     sources = list(sources) if sources is not None else [cfg.entry]
     exempt = set(exempt_edges)
+    # a source given as (test node id, label) means: start at that test taking only that edge
+    plain = []
+    for s in sources:
+        if isinstance(s, tuple):
+            nid, lab = s
+            for _, l2 in cfg.succ[nid]:
+                if l2 != lab:
+                    exempt.add((nid, l2))
+            plain.append(nid)
+        else:
+            plain.append(s)
+    sources = plain
     removed = set(exempt)
     for g in guards:
         removed.add((g.node.id, g.pass_label))
